@@ -99,37 +99,47 @@ def run_case(cs):
         cs.evaluated()
         cs.violation(classify.internal_key(bres) if bres.internal else "baseline-create-nonzero", {"kind": "baseline-failed", "exits": bex, "exc": bres.exc_class}, bres.brief())
         return
-    variants = rng.sample(["asc-parent", "pattern-parent", "deep", "unicode-parent", "slash", "rel-root", "rel-dot-slash", "rel-dot", "listing", "listing", "listing"], rng.randint(3, 5))
-    for vi, v in enumerate(variants):
+    # the product location class x invocation form x listing order is sampled (a seeded change may need two of them together)
+    variants = []
+    for _ in range(rng.randint(3, 5)):
+        loc = rng.choice(["plain", "asc-parent", "pattern-parent", "deep", "unicode-parent", "symlink-parent"])
+        form = rng.choice(["abs", "abs", "slash", "rel-root", "rel-dot-slash", "rel-dot"])
+        lst = rng.choice(["sorted", "permuted"])
+        if (loc, form, lst) == ("plain", "abs", "sorted"):
+            lst = "permuted"
+        variants.append((loc, form, lst))
+    for vi, (loc, form, lst) in enumerate(variants):
         root_arg = None
         cwd = None
         lseed = None
-        if v == "asc-parent":
+        if loc == "pattern-parent" and not pats:
+            loc = "asc-parent"
+        if loc == "asc-parent":
             root = os.path.join(d, "v%d" % vi, "ascmhl", "root")
-        elif v == "pattern-parent":
-            pn = {"*.tmp": "mount.tmp", "scratch*": "scratch disk", "[xy]*": "xvolume"}.get(pats[0] if pats else None, "ascmhl")
+        elif loc == "pattern-parent":
+            pn = {"*.tmp": "mount.tmp", "scratch*": "scratch disk", "[xy]*": "xvolume"}[pats[0]]
             root = os.path.join(d, "v%d" % vi, pn, "root")
-            if not pats:
-                v = "asc-parent"
-        elif v == "deep":
+        elif loc == "symlink-parent":
+            os.makedirs(os.path.join(d, "v%d" % vi, "real volume"))
+            os.symlink(os.path.join(d, "v%d" % vi, "real volume"), os.path.join(d, "v%d" % vi, "mnt"))
+            root = os.path.join(d, "v%d" % vi, "mnt", "root")
+        elif loc == "deep":
             root = os.path.join(d, "v%d" % vi, "a", "b b", "c", "d", "root")
-        elif v == "unicode-parent":
-            root = os.path.join(d, "v%d" % vi, "Volume 日本 ä", "root")
-        elif v == "slash":
-            root = os.path.join(d, "v%d" % vi, "p", "root")
-            root_arg = root + "/"
-        elif v == "rel-root":
-            root = os.path.join(d, "v%d" % vi, "p", "root")
-            root_arg, cwd = "root", os.path.dirname(root)
-        elif v == "rel-dot-slash":
-            root = os.path.join(d, "v%d" % vi, "p", "root")
-            root_arg, cwd = "./root/", os.path.dirname(root)
-        elif v == "rel-dot":
-            root = os.path.join(d, "v%d" % vi, "p", "root")
-            root_arg, cwd = ".", root
+        elif loc == "unicode-parent":
+            root = os.path.join(d, "v%d" % vi, "Volume \u65e5\u672c \u00e4", "root")
         else:
             root = os.path.join(d, "v%d" % vi, "p", "root")
+        if form == "slash":
+            root_arg = root + "/"
+        elif form == "rel-root":
+            root_arg, cwd = "root", os.path.dirname(root)
+        elif form == "rel-dot-slash":
+            root_arg, cwd = "./root/", os.path.dirname(root)
+        elif form == "rel-dot":
+            root_arg, cwd = ".", root
+        if lst == "permuted":
             lseed = rng.randint(1, 10**6)
+        v = loc + "/" + form + ("/listing" if lseed is not None else "")
         os.makedirs(os.path.dirname(root), exist_ok=True)
         if cwd and cwd == root:
             # cwd must exist before the copy: seal() copies first, so pre-create is not possible; handle by copying here
@@ -143,7 +153,9 @@ def run_case(cs):
             cs.count("listing_distinct_orders", listing.stats()["distinct_orders"] - before_orders)
         cs.evaluated()
         cs.count("variants_compared")
-        cs.count("variant:" + v)
+        cs.count("loc:" + loc)
+        cs.count("form:" + form)
+        cs.count("listing:" + lst)
         cs.cls(v, nested_kind, "pats%d" % len(pats))
         ctx = {"variant": v, "root": root[len(d) :], "root_arg": root_arg, "seq": [(s, a) for s, a in seq], "nested": nested_kind, "kids": kids}
         if res.internal:
@@ -153,7 +165,7 @@ def run_case(cs):
             cs.violation("exit-code-depends-on-location", {"kind": "exit-differs", "variant": v}, {**ctx, "exits": ex, "baseline": bex})
             continue
         if set(files) != set(bfiles):
-            cs.violation("ignore-absolute-path" if v in ("asc-parent", "pattern-parent") and not (set(files) - set(bfiles)) else "file-set-depends-on-location", {"kind": "fileset-differs", "variant": v}, {**ctx, "only_here": sorted(set(files) - set(bfiles))[:4], "only_base": sorted(set(bfiles) - set(files))[:4]})
+            cs.violation("ignore-absolute-path" if loc in ("asc-parent", "pattern-parent") and not (set(files) - set(bfiles)) else "file-set-depends-on-location", {"kind": "fileset-differs", "variant": v}, {**ctx, "only_here": sorted(set(files) - set(bfiles))[:4], "only_base": sorted(set(bfiles) - set(files))[:4]})
             continue
         for k in sorted(files):
             cs.count("files_byte_compared")
@@ -165,7 +177,7 @@ def run_case(cs):
                 sig = {"kind": "bytes-differ", "variant": "listing" if lseed is not None else v, "file": "chain" if k[1].endswith(".xml") else "manifest", "same_lines_reordered": sorted(al) == sorted(bl), "fewer_records": len(al) < len(bl)}
                 if sig["same_lines_reordered"] and "hashlistreference" in a and lseed is not None:
                     key = "child-history-order"
-                elif sig["fewer_records"] and v in ("asc-parent", "pattern-parent"):
+                elif sig["fewer_records"] and loc in ("asc-parent", "pattern-parent"):
                     key = "ignore-absolute-path"
                 cs.violation(key, sig, {**ctx, "file": list(k), "first_diffs": diffl})
                 break
